@@ -109,6 +109,19 @@ def iban_shard(args):
                 if ch != body[p]:
                     b = body[:p] + ch + body[p + 1:]
                     run_text(bases.iban_text(country, b), f"conforming substitution at {p} of {f}")
+        if f == "distinct":
+            # every check-digit pair for a residue-complete family: whatever the library accepts
+            # (including a non-canonical spelling, should it accept one) must re-assemble to itself
+            from .c02 import residue_family
+            fam_members, _ = residue_family(country, body)
+            for b in fam_members:
+                for d in range(100):
+                    run_text(country + f"{d:02d}" + b, "check-pair over residue family")
+            # the same BBAN text read under every partner country first (per-text memoisation
+            # would hand this country the partner's layout)
+            for pc in bases.partners(country, body):
+                run_text(bases.iban_text(pc, body), f"partner {pc} first")
+                run_text(base, f"after partner {pc}")
         if f in ("distinct", "max"):
             for fam, text in families.iban_lengths(base):
                 run_text(text, fam)
